@@ -266,6 +266,16 @@ def judge_sites(facts, helpers, caller, only_blocks=None):
                     else:
                         probs.append("%s count %s is not bounded by the length of %s" % (what, fmt_expr(n), fmt_expr(s_)))
                 else:
+                    # `s.as_mut_ptr().add(i)` with a dominating `i + count <= s.len()` (for one element: `i < s.len()`)
+                    inner = canon(base)
+                    if is_call(inner, "add") and len(inner[2]) == 2:
+                        b0 = strip_ptr(inner[2][0])
+                        if (is_call(b0, "as_mut_ptr") or is_call(b0, "as_ptr")) and "alloc::vec::Vec" not in b0[1]:
+                            ln = ("call", "len", (slice_id(norm_len(b0[2][0])),))
+                            off = inner[2][1]
+                            if (const_of(n) == 1 and ctx.lt(off, ln)) or ctx.le(("bin", "Add", off, n), ln):
+                                hows.append("%s: offset + count <= len(%s)" % (what, fmt_expr(b0[2][0])[:60]))
+                                continue
                     # raw pointer arithmetic on handle fields: representation-invariant site (rule A8)
                     if tainted_by_int_param(n, caller) or tainted_by_int_param(ptr, caller):
                         probs.append("%s is raw pointer arithmetic with a caller-controlled operand: %s" % (what, fmt_expr(ptr)))
@@ -284,6 +294,11 @@ def judge_sites(facts, helpers, caller, only_blocks=None):
             base = norm_handle(canon(strip_ptr(args[0])))
             ok = False
             how = ""
+            if (is_call(base, "as_mut_ptr") or is_call(base, "as_ptr")) and "alloc::vec::Vec" not in base[1] and name == "add":
+                ctx2 = Ctx(caller, bi, facts, norm=norm_len)
+                if ctx2.le(x, ("call", "len", (slice_id(norm_len(base[2][0])),))):
+                    ok = True
+                    how = "guard offset <= len(%s)" % fmt_expr(base[2][0])[:60]
             if isinstance(base, tuple) and base[0] == "field" and base[2] == "ptr":
                 for f in ("len", "cap"):
                     if not ok and ctx.le(x, ("field", base[1], f)):
